@@ -427,7 +427,7 @@ def run(a):
         except Exception:
             report = {}
     ok = True
-    parts = [part] if part != "all" else ["racy", "coverage", "corrupt", "seeds"]
+    parts = [part] if part != "all" else ["racy", "coverage", "corrupt"]
     for p in parts:
         if p == "racy":
             ok &= part_racy(report)
